@@ -199,6 +199,8 @@ def run_case(case):
                     except Exception as e:
                         res.exception("fexpand:exception", e, f"n={n} nd={nd} axis={ax}")
                     nt += 1
+        nmaxf = 4 * max(case['lens']) + 40
+        for n in range(case['lens'][0], nmaxf + 1, 4):
             for si in (1.0, 1 / 30000.0, 0.002):
                 try:
                     fs = F.fscale(n, si)
